@@ -290,7 +290,7 @@ pub fn replay(run: &mut Run, phase: &str, case: &serde_json::Value) -> Result<()
 }
 
 pub const LEVEL: &str = "exploration";
-pub const RULE: &str = "each generated state (registers, flags, B/BC biased to 0/1/2 so that every repeat/fall-through variant occurs, optional A==(HL), operand bytes, random memory) is applied to ALL 1792 encodings; implementation and reference execute the instruction from the same state and the ordered timing skeleton is compared event by event: (kind read/write/delay/io, clocks 4/3/1, address of every memory cycle and of every single delay T-state, port of every I/O cycle) plus the T-state total; second phase: INT entry in IM 0/1/2, NMI entry, HALT refetch, from running and halted states (totals 13/19/11/4 and the memory cycles). non-trivial/distinct = distinct (encoding, timing-skeleton shape) pairs; coverage of 17 named variants (taken/not taken, repeat/last, match) and 5 entry kinds is asserted";
+pub const RULE: &str = "each generated state (registers, flags, B/BC biased to 0/1/2 so that every repeat/fall-through variant occurs, optional A==(HL), operand bytes, random memory) is applied to ALL 1792 encodings; implementation and reference execute the instruction from the same state and the ordered timing skeleton is compared event by event: (kind read/write/delay/io, clocks 4/3/1, address of every memory cycle and of every single delay T-state — each presented as its own 1-T bus call —, port of every I/O cycle) plus the T-state total; second phase: INT entry in IM 0/1/2, NMI entry, HALT refetch, from running and halted states (totals 13/19/11/4 and the memory cycles). non-trivial/distinct = distinct (encoding, timing-skeleton shape) pairs; coverage of 17 named variants (taken/not taken, repeat/last, match) and 5 entry kinds is asserted";
 pub const ASSUMPTIONS: &[&str] = &[
     "reference bus-cycle breakdown (refz80) follows the published ZX Spectrum contention tables; trusted after calibration and its own T-state table self-check",
     "inside interrupt entry totals and memory cycles are compared; the position of the 7/5 acknowledge T-states is not judged, but acknowledge T-states the implementation presents as addressed delay T-states must carry the return address (the pushed word; HALT+1 out of HALT); HALT refetch address PC or PC+1 both accepted",
